@@ -600,7 +600,11 @@ func (b *UnsafeLinkBuffer) WriteDirect(extra []byte, remainLen int) error {
 		newNode.off = malloc
 		newNode.buf = origin.buf[:malloc]
 		newNode.malloc = origin.malloc
-		newNode.unsetFlag(flagUnmanaged)
+		if origin.reusable() {
+			// the tail takes over the block only if origin owned it: origin may be the
+			// data node of a previous WriteDirect at the same offset (caller memory)
+			newNode.unsetFlag(flagUnmanaged)
+		}
 		origin.malloc = malloc
 		origin.setFlag(flagUnmanaged)
 
